@@ -9,6 +9,13 @@ monomial of the reference, carry the product of the participating values, and ev
 
 Every failing case is shrunk (terms dropped, powers lowered, features dropped, representations simplified)
 while it keeps failing in the same way; the signature is built from what is left.
+
+NAMES (gen_hostile / evaluate_names): feature keys and string values that are hard to tell apart once they are written
+next to each other in a key (a digit string after an int key or a vector position, text that continues another key, a
+namespace letter or a punctuation character inside a feature's name).  The oracle of these cases does not read the keys
+at all to find the monomials: numbers are distinct primes, so the multiset of the values must be the multiset of the
+reference products (a mapping with fewer entries than monomials has lost one), and every key must mention the texts of
+the features of some monomial with its value.
 """
 import itertools, math, re
 from collections import Counter
@@ -34,9 +41,15 @@ RULE  = ("term lists are ENUMERATED: every list of 1..4 terms x^i a^j with 1 <= 
          "whole expansion stays under a monomial cap, and is a list/tuple/LazyDense/HashableDense of numbers (all-dense call, or "
          "with a string / mapping / string-holding vector as the other namespace, or holding 1-3 strings itself, one of them often last) "
          "or a dict/LazySparse/HashableSparse with str or int keys in shuffled order; values are distinct primes, a one-hot "
-         "vector (hot position often the last) or small repeating numbers")
-PLAN  = {"quick":    {"shards": 16, "cases": 20000,  "timeout": 600,  "budget_s": 80,  "inputs": 3, "history_frac": .3, "one_term_histories": 2, "wide": 60, "wide_cap": 60000},
-         "thorough": {"shards": 16, "cases": 168420, "timeout": 3000, "budget_s": 2400, "inputs": 4, "history_frac": .25, "one_term_histories": 4, "wide": 400, "wide_cap": 150000}}
+         "vector (hot position often the last) or small repeating numbers. NAMES: every shard also encodes features whose names are hard to "
+         "keep apart: recipes for {int key k with a digit-string value d beside the int key 'kd'; a vector of 11-30 entries with a digit "
+         "string at position 1-2 that spells a later position; a str key with a string value beside the key that the two spell together; "
+         "keys k1, k2 and k1+<namespace letter>+k2 in one namespace under terms of degree 1 and 2, or across x and a under 'x','xa'; the same "
+         "three levels deep under one term; a string VALUE holding the namespace letter; the same with '=', '*', ':', '|' or a backslash next to the "
+         "letter; a name that ends in a backslash beside the name it would spell if that backslash quoted a separator} and a soup of 2-4 keys / string values over the alphabet {1,2,x,a,=,*,\\,b}; 0-2 further terms of degree <= 3, 0-1 constant, "
+         "numbers are distinct primes >= 5; distinct by (recipe, canonical term list, container kind)")
+PLAN  = {"quick":    {"shards": 16, "cases": 20000,  "timeout": 600,  "budget_s": 80,  "inputs": 3, "history_frac": .3, "one_term_histories": 2, "wide": 60, "wide_cap": 60000, "names": 260},
+         "thorough": {"shards": 16, "cases": 168420, "timeout": 3000, "budget_s": 2400, "inputs": 4, "history_frac": .25, "one_term_histories": 4, "wide": 400, "wide_cap": 150000, "names": 4000}}
 REQUIRED = ["oracle.dense", "oracle.sparse", "oracle.dense.segment", "oracle.sparse.key", "oracle.constant.dense",
             "oracle.constant.sparse", "oracle.ns.scalar", "oracle.ns.none", "oracle.ns.empty", "oracle.ns.absent",
             "oracle.ns.string", "oracle.pow>=4.feat>=3", "oracle.repeated-const", "oracle.repeated-term",
@@ -46,12 +59,17 @@ REQUIRED = ["oracle.dense", "oracle.sparse", "oracle.dense.segment", "oracle.spa
             "oracle.history.equal-values-after-result-edit", "oracle.history.same-object-again",
             "oracle.wide", "oracle.wide.dense-call", "oracle.wide.mapping-call.vector-ns", "oracle.wide.mapping-call.mapping-ns",
             "oracle.wide.mapping-call.string-in-wide-vector", "oracle.wide.width>=2^8", "oracle.wide.width>=2^10", "oracle.wide.width>=2^12",
-            "oracle.wide.pow>=2", "oracle.wide.crossed", "oracle.wide.onehot"]
+            "oracle.wide.pow>=2", "oracle.wide.crossed", "oracle.wide.onehot",
+            "oracle.names", "oracle.names.key", "oracle.names.value-multiset", "oracle.names.plain-joining-would-collide",
+            "oracle.names.digit-string-after-int-key", "oracle.names.digit-string-in-vector>=11", "oracle.names.text-after-str-key",
+            "oracle.names.ns-letter-in-key.same-ns", "oracle.names.ns-letter-in-key.cross-ns", "oracle.names.ns-letter-in-key.three-levels",
+            "oracle.names.ns-letter-in-value", "oracle.names.escape-char-in-text", "oracle.names.punctuation-in-text", "oracle.names.soup"]
 ASSUMPTIONS = [
     "order of monomials inside one term is not checked (the statement does not claim it); the order of terms and 'constant first' are checked for vectors only - a mapping has no order",
     "several numeric constants: one leading entry equal to their sum (what coba documents in its tests) or each constant in turn are both accepted; a constant (sum) of 0 may be present or omitted",
     "a term list that names the same monomial set twice ('x','x' or 'xa','ax'): the later occurrences may be expanded again or folded into the first one, both are accepted; losing or re-ordering a *different* term is not",
-    "sparse keys are decoded with coba's documented naming (namespace letter + feature key/index + string value, concatenated); feature keys and string values never contain the letters x/a and are distinct after str(), so decoding is unambiguous",
+    "enumerated / history / wide cases: sparse keys are decoded as a sequence of features, each spelled namespace letter + feature key/index + string value (what coba's tests show), optionally with one of '=' ':' between key and string value and one of '*|;,&+' between the features of a monomial (the statement fixes no spelling); in these cases feature keys and string values never contain the letters x/a or those characters and are distinct after str(), so decoding is unambiguous",
+    "NAMES cases: the statement says the keys identify the participating features and every monomial is there once; it does not say how a key is spelled. So nothing is decoded: the values (distinct primes) must be the multiset of the reference products - between 'every distinct monomial once' and 'once per term that holds it' - and each key must contain the namespace letter, the key text and the string value of every feature of one monomial with its value (backslash escapes are looked through; a text with other characters than letters and digits may be quoted in any way and is not looked for). Two features whose keys are equal after str() (1 and '1') are one name by coba's own tests and are never generated",
     "when a namespace that no term uses is the only sparse/string input, list or mapping output are both accepted",
     "histories: what encode returns is taken to be the caller's own vector / mapping (a caller may edit it in place) and what was passed stays the caller's too: each encode is held against the expansion of the values passed to THAT call (the current content of an edited container), and a result the caller kept must stay as returned / as the caller left it; results that cannot be edited in place (not a list / dict) are only kept and compared; only plain lists and dicts are edited as inputs",
     "wide namespaces: the statement sets no limit on the number of features, so the same oracle is applied unchanged; string values inside wide vectors / mappings are letters only, so that 'position + text' can never spell another position",
@@ -266,6 +284,29 @@ def features(ns, inp):
     if k == "map":    return [(f"{ns}{key}{v}", 1) if isinstance(v, str) else (f"{ns}{key}", v) for key, v in inp["items"]]
     raise ValueError(k)
 
+KSEP = ("=", ":")                                               # accepted between a feature's key and its string value
+FSEP = "*|;,&+"                                                 # accepted between the features of one monomial
+
+def spellings(case):
+    """other accepted spellings of a string-valued feature -> the token features() gives it"""
+    out = {}
+    for ns in NS:
+        inp = case[ns]
+        if   inp["k"] == "str": named = [("0", inp["v"])]
+        elif inp["k"] == "seq": named = [(i, v) for i, v in enumerate(inp["v"]) if isinstance(v, str)]
+        elif inp["k"] == "map": named = [(key, v) for key, v in inp["items"] if isinstance(v, str)]
+        else: continue
+        for key, v in named:
+            for sep in KSEP: out[f"{ns}{key}{sep}{v}"] = f"{ns}{key}{v}"
+    return out
+
+def read_token(t, known, alias):
+    """one feature of a key as features() spells it (an unknown spelling is returned as it is)"""
+    for u in ((t, t[:-1]) if t[-1] in FSEP else (t,)):
+        if u in known: return u
+        if u in alias: return alias[u]
+    return t
+
 def is_sparse_input(inp):
     return inp["k"] in ("str", "map") or (inp["k"] == "seq" and any(isinstance(v, str) for v in inp["v"]))
 
@@ -380,6 +421,7 @@ def evaluate(case, encoder=None, note=None, kw=None, io=None):
     # ---- mapping
     note("oracle.sparse")
     known = {ns: {t: v for t, v in feats[ns]} for ns in NS}
+    alias = spellings(case)
     exp_max = Counter()                                         # monomial -> number of terms that contain it
     for m in monos:
         for toks, val in set(m): exp_max[toks] += 1
@@ -391,6 +433,7 @@ def evaluate(case, encoder=None, note=None, kw=None, io=None):
         if not isinstance(key, str): return ("bad-key", f"key {key!r} is not a string")
         toks = re.findall(r"[xa][^xa]*", key)
         if "".join(toks) != key or not toks: return ("bad-key", f"key {key!r} does not decode into namespace-prefixed features")
+        toks = [read_token(t, known[t[0]], alias) for t in toks]
         if any(t not in known[t[0]] for t in toks): return ("bad-key", f"key {key!r} names a feature that is not in the input ({sorted(known['x'])[:8]} {sorted(known['a'])[:8]})")
         mono = tuple(sorted(toks))
         if mono not in exp_max: return ("extra-monomial", f"key {key!r} is no monomial of any term")
@@ -508,7 +551,7 @@ def _simpler(case):
         elif k == "none":   yield dict(case, **{ns: {"k": "seq", "v": [], "as": "list"}})
         elif k == "absent": yield dict(case, **{ns: {"k": "none"}})
 
-def shrink(case, limit=400, work=1500000):
+def shrink(case, limit=400, work=1500000, ev=None):
     """greedy: adopt the first simpler case that still disagrees with the reference (whatever the mode), repeat.
     Bounded by the number of candidates (narrow cases: 400 as before, wide ones 1500) and by the number of monomials
     the candidates expand to (deterministic, only wide cases can reach it)"""
@@ -520,7 +563,7 @@ def shrink(case, limit=400, work=1500000):
         for cand in _simpler(case):
             n += 1
             work -= expansion_size(cand["terms"], {ns: width_of(cand[ns]) for ns in NS})
-            r = evaluate(cand)
+            r = (ev or evaluate)(cand)
             if r is not None:
                 case, progress = cand, True
                 break
@@ -575,7 +618,7 @@ def report_single(case, fresh):
 def brief(inp):
     """the description of a namespace with long feature lists cut to both ends (the witness holds all of it)"""
     for f in ("v", "items"):
-        if f in inp and len(inp[f]) > 14: return dict(inp, **{f: inp[f][:6] + [f"... {len(inp[f]) - 12} more ..."] + inp[f][-6:]})
+        if isinstance(inp.get(f), list) and len(inp[f]) > 14: return dict(inp, **{f: inp[f][:6] + [f"... {len(inp[f]) - 12} more ..."] + inp[f][-6:]})
     return inp
 
 def snap(obj):
@@ -709,6 +752,230 @@ def check_history(spec, ctx=None):
     return [(f"encode-history/path={path}/mode={mode}/needs={needs}/" + ",".join(flags),
              f"{f['detail']} | terms={terms} x={f['case']['x']} a={f['case']['a']} | a fresh encoder is correct on these values")]
 
+# ------------------------------------------------------------------------------------------ names that are hard to keep apart
+NPRIMES = [p for p in range(5, 230) if all(p % q for q in range(2, 15) if q < p)]      # 46 primes >= 5: never equal to a constant
+NKEYS   = ["k", "m", "p", "q7", "_", "1", "2", "12", "b"]
+NJOIN   = ["", "", "", "*", "=", ":", "|", "\\", "\\*", "="]
+SOUP    = ["1", "2", "x", "a", "=", "*", "\\", "b"]
+PUNCT   = "=*:|\\"
+
+def _nmap(items, rng):
+    items = [list(it) for it in items]
+    rng.shuffle(items)
+    return {"k": "map", "items": items, "as": rng.choice(["dict", "dict", "lazy", "hashable"])}
+
+def _extras(rng, taken, pool, ints):
+    """0-3 more features that take part in nothing special"""
+    out = []
+    for key in rng.sample([0, 4, 6, 8, 9, 55] if ints else ["g", "h", "j", "w", "gg", "t5"], rng.choice([0, 0, 1, 2, 3])):
+        if str(key) not in taken: out.append([key, rng.choice(WTEXTS) if rng.random() < .2 else pool.pop()])
+    return out
+
+def _benign(rng, pool):
+    r = rng.random()
+    if r < .25: return {"k": "absent"}
+    if r < .35: return {"k": "none"}
+    if r < .45: return {"k": "scalar", "v": pool.pop()}
+    if r < .55: return {"k": "str", "v": rng.choice(WTEXTS)}
+    if r < .80: return {"k": "seq", "v": [pool.pop() for _ in range(rng.randint(0, 3))], "as": rng.choice(["list", "tuple", "lazy", "hashable"])}
+    return _nmap([[key, pool.pop()] for key in rng.sample(["g", "h", "j", "w"], rng.randint(1, 3))], rng)
+
+def _cross(rng, n1, n2):
+    """a degree-2 term over two namespaces (or the square of one) in which n1 is named first"""
+    return n1 + n2
+
+def gen_hostile(rng):
+    pool = list(NPRIMES); rng.shuffle(pool)
+    recipe = rng.choice(["digit-string-after-int-key", "digit-string-after-int-key", "digit-string-in-vector>=11", "digit-string-in-vector>=11",
+                         "text-after-str-key", "text-after-str-key", "ns-letter-in-key.same-ns", "ns-letter-in-key.same-ns",
+                         "ns-letter-in-key.cross-ns", "ns-letter-in-key.cross-ns", "ns-letter-in-key.three-levels", "ns-letter-in-value",
+                         "ns-letter-in-value", "escape-char-in-text", "soup", "soup", "soup"])
+    ns    = rng.choice(NS)
+    other = "a" if ns == "x" else "x"
+    inp, terms, maxdeg = {}, [], 3
+    if recipe == "digit-string-after-int-key":
+        k = rng.choice([1, 2, 3, 7, 10, 12])
+        d = rng.choice(["0", "2", "5", "00", "13"])
+        both = rng.random() < .3                                  # both features string-valued: k:'d'+t and kd:t
+        t = rng.choice(["b", "zz", "7"])
+        items = [[k, d + t], [int(f"{k}{d}"), t]] if both else [[k, d], [int(f"{k}{d}"), pool.pop()]]
+        items += _extras(rng, {str(i[0]) for i in items}, pool, True)
+        inp[ns], terms = _nmap(items, rng), [ns]
+    elif recipe == "digit-string-in-vector>=11":
+        n = rng.randint(11, 30)
+        j = rng.choice([j for j in range(10, n) if str(j)[0] in "12"])
+        v = [pool.pop() for _ in range(n)]
+        v[int(str(j)[0])] = str(j)[1:]
+        if rng.random() < .3: v[rng.choice([0] + list(range(3, n)))] = rng.choice(WTEXTS)
+        inp[ns], terms, maxdeg = {"k": "seq", "v": v, "as": rng.choice(["list", "list", "tuple", "lazy", "hashable"])}, [ns], 2
+    elif recipe == "text-after-str-key":
+        k, m, t = rng.choice(["k", "m", "p", "q7", "_"]), rng.choice(["m", "1", "b", "kk", "0", "="]), rng.choice(["1", "b", "zz", "Q", "=v"])
+        items = [[k, m + t], [k + m, t]] if rng.random() < .5 else [[k, m + t], [k + m + t, pool.pop()]]
+        items += _extras(rng, {str(i[0]) for i in items}, pool, False)
+        inp[ns], terms = _nmap(items, rng), [ns]
+    elif recipe.startswith("ns-letter-in-key"):
+        k1, k2, j = rng.choice(NKEYS), rng.choice(NKEYS), rng.choice(NJOIN)
+        if recipe.endswith("same-ns"):
+            items = [[key, pool.pop()] for key in dict.fromkeys([k1, k2, k1 + j + ns + k2])]
+            terms = [ns, ns + ns]
+        elif recipe.endswith("three-levels"):
+            items = [[key, pool.pop()] for key in (k1, k1 + j + ns + k1, k1 + j + ns + k1 + j + ns + k1)]
+            terms = [ns + ns]
+        else:
+            items = [[k1, pool.pop()], [k1 + j + other + k2, pool.pop()]]
+            inp[other] = _nmap([[k2, pool.pop()]] + _extras(rng, {k2}, pool, False), rng)
+            terms = [ns, ns + other]
+        items += _extras(rng, {str(i[0]) for i in items}, pool, False)
+        inp[ns] = _nmap(items, rng)
+    elif recipe == "ns-letter-in-value":
+        k1, tail, k3, j = rng.choice(NKEYS), rng.choice(["", "2", "b"]), rng.choice(NKEYS), rng.choice(NJOIN)
+        keys = list(dict.fromkeys([k1, k1 + tail, k3]))
+        items = [[k1, tail + j + ns + k3]] + [[key, pool.pop()] for key in keys if key != k1]
+        if k1 + tail == k1: items.append([k1 + "0", pool.pop()])
+        items += _extras(rng, {str(i[0]) for i in items}, pool, False)
+        inp[ns], terms = _nmap(items, rng), [ns, ns + ns]
+    elif recipe == "escape-char-in-text":                         # a backslash at the end of a name, a separator right after it
+        k, k2, t = rng.choice(["k", "m", "1", "k\\"]), rng.choice(NKEYS), rng.choice(["v", "b", "1"])
+        if rng.random() < .5:
+            items, terms = [[k + "\\", t], [k + rng.choice(KSEP) + t, pool.pop()]], [ns]
+        else:
+            items = [[key, pool.pop()] for key in dict.fromkeys([k + "\\", k2, k + rng.choice(FSEP[:2]) + ns + k2])]
+            terms = [ns, ns + ns]
+        items += _extras(rng, {str(i[0]) for i in items}, pool, False)
+        inp[ns] = _nmap(items, rng)
+    else:
+        for n in NS:
+            keys = list(dict.fromkeys("".join(rng.choice(SOUP) for _ in range(rng.randint(1, 3))) for _ in range(rng.randint(2, 4))))
+            inp[n] = _nmap([[key, "".join(rng.choice(SOUP) for _ in range(rng.randint(0, 2))) if rng.random() < .4 else pool.pop()] for key in keys], rng)
+        terms = [spell(rng, rng.choice(WTERMS)) for _ in range(rng.randint(1, 2))]
+    if other not in inp: inp[other] = _benign(rng, pool)
+    if len(terms) == 2 and rng.random() < .5: terms.reverse()
+    more = [t for t in WTERMS if sum(t) <= maxdeg and (maxdeg > 2 or t[0 if ns == "x" else 1] <= 1 or width_of(inp[other]) <= 3)]
+    for _ in range(rng.choice([0, 0, 1, 2])): terms.insert(rng.randint(0, len(terms)), spell(rng, rng.choice(more)))
+    if rng.random() < .25: terms.insert(rng.randint(0, len(terms)), rng.choice(CONSTS))
+    inp["fam"] = "names"
+    return {"index": None, "terms": terms, "inputs": [inp], "names": recipe}
+
+def named_features(ns, inp):
+    """the namespace as a vector of (key text, string value or None, number)"""
+    k = inp["k"]
+    if k in ("absent", "none"): return []
+    if k == "scalar": return [("0", None, inp["v"])]
+    if k == "str":    return [("0", inp["v"], 1)]
+    if k == "seq":    return [(str(i), v, 1) if isinstance(v, str) else (str(i), None, v) for i, v in enumerate(inp["v"])]
+    if k == "map":    return [(str(key), v, 1) if isinstance(v, str) else (str(key), None, v) for key, v in inp["items"]]
+    raise ValueError(k)
+
+def named_monomials(term, feats):
+    """the monomials of one term as sorted tuples of (namespace, position in the namespace)"""
+    per_ns = [list(itertools.combinations_with_replacement([(ns, i) for i in range(len(feats.get(ns, [])))], p)) for ns, p in Counter(term).items()]
+    return [tuple(sorted(f for part in combo for f in part)) for combo in itertools.product(*per_ns)]
+
+def plain_joining_collides(sterms, feats):
+    """would writing namespace letter, key and string value of the features one after the other give two monomials one key?"""
+    owner = {}
+    for t in sterms:
+        order = list(dict.fromkeys(t))
+        for m in named_monomials(t, feats):
+            text = "".join(f"{ns}{feats[ns][i][0]}{feats[ns][i][1] or ''}" for ns, i in sorted(m, key=lambda f: (order.index(f[0]), f[1])))
+            if owner.setdefault(text, m) != m: return True
+    return False
+
+def evaluate_names(case, encoder=None, note=None):
+    """-> None or (mode, detail). The keys are not decoded: the values must be the reference products, every key must
+    mention the features of a monomial that has its value"""
+    note = note or (lambda name, n=1: None)
+    sterms = [t for t in case["terms"] if not is_num(t)]
+    nums   = [t for t in case["terms"] if is_num(t)]
+    feats  = {ns: named_features(ns, case[ns]) for ns in NS}
+    used   = set("".join(sterms))
+    if not any(is_sparse_input(case[ns]) for ns in used): return evaluate(case, encoder, note)
+    try:
+        out = run_encode(case, encoder)
+    except Exception as e:
+        return (f"raise:{type(e).__name__}", f"{type(e).__name__}: {e}")
+    if not isinstance(out, Mapping): return ("wrong-type", f"sparse/string inputs gave a {type(out).__name__}")
+    held = Counter()                                            # monomial -> number of terms that contain it
+    for t in sterms:
+        for m in set(named_monomials(t, feats)): held[m] += 1
+    value = {m: math.prod(feats[ns][i][2] for ns, i in m) for m in held}
+    least, most, by_value = Counter(), Counter(), {}
+    for m, n in held.items():
+        least[value[m]] += 1; most[value[m]] += n
+        by_value.setdefault(value[m], []).append(m)
+    got = {key: val for key, val in out.items() if key != "const"}
+    for key, val in got.items():
+        if not isinstance(key, str): return ("bad-key", f"key {key!r} is not a string")
+        if isinstance(val, bool) or not isinstance(val, (int, float)): return ("wrong-value", f"{key!r}: {val!r} is not a number")
+    note("oracle.names.value-multiset")
+    have = Counter(got.values())
+    show = lambda m: [f"{ns}:{feats[ns][i][0]!r}" + (f"={feats[ns][i][1]!r}" if feats[ns][i][1] is not None else "") for ns, i in m]
+    for v in least:
+        if have[v] < least[v]:
+            gone = least[v] - have[v]
+            return ("lost-monomial", f"{len(got)} keys for {len(held)} monomials: {gone} of the {least[v]} monomial(s) with the product {v} "
+                                     f"(e.g. {show(by_value[v][0])}) {'are' if gone > 1 else 'is'} not there; got {dict(itertools.islice(got.items(), 8))}")
+    for key, val in got.items():
+        if val not in least: return ("wrong-value", f"{key!r}: {val!r} is the product of no monomial")
+    for v in have:
+        if have[v] > most[v]: return ("duplicated-monomial", f"{have[v]} keys carry the product {v}, {most[v]} monomial(s) of the terms have it")
+    for key, val in got.items():
+        note("oracle.names.key")
+        bare = re.sub(r"\\(.)", r"\1", key)
+        def mentions(m):
+            return all(ns in key and all(not t.isalnum() or t in key or t in bare for t in (text, sv or ""))
+                       for ns, i in m for text, sv, _ in [feats[ns][i]])
+        if not any(mentions(m) for m in by_value[val]):
+            return ("bad-key", f"key {key!r} (value {val!r}) does not name the features of a monomial with that product, e.g. {show(by_value[val][0])}")
+    const = out.get("const")
+    if nums:
+        if const is None and sum(nums) != 0: return ("constant-missing", f"constants {nums} but no 'const' entry")
+        if const is not None and (isinstance(const, bool) or not isinstance(const, (int, float)) or const != sum(nums)): return ("constant-wrong-value", f"'const' is {const!r}, constants are {nums}")
+    elif const is not None:
+        return ("constant-unrequested", f"'const'={const!r} without a numeric term")
+    return None
+
+def name_flags(case):
+    """what is special about the names that are left (of the namespaces some term uses)"""
+    used, flags = set("".join(t for t in case["terms"] if not is_num(t))), set()
+    for ns in used:
+        inp = case[ns]
+        positional = inp["k"] in ("seq", "str")
+        for (text, sv, _), raw in zip(named_features(ns, inp), [key for key, _ in inp["items"]] if inp["k"] == "map" else itertools.repeat(0)):
+            if not positional:
+                if any(c in text for c in used): flags.add("ns-letter-in-key")
+                if any(c in text for c in PUNCT): flags.add("punctuation-in-key")
+            if sv is None: continue
+            if any(c in sv for c in used):  flags.add("ns-letter-in-value")
+            if any(c in sv for c in PUNCT): flags.add("punctuation-in-value")
+            flags.add("string-value-after-position" if positional else "string-value-after-key")
+    return sorted(flags)
+
+def check_names(spec, ctx=None):
+    note = ctx.count if ctx else None
+    inp  = spec["inputs"][0]
+    case = {"terms": list(spec["terms"]), "x": inp["x"], "a": inp["a"], "fam": "names"}
+    sterms = [t for t in case["terms"] if not is_num(t)]
+    r = evaluate_names(case, None, note)
+    if ctx:
+        feats = {ns: named_features(ns, case[ns]) for ns in NS}
+        recipe = spec.get("names") or "replayed"
+        ctx.case(("names", recipe, tuple("c" if is_num(t) else canon(t) for t in case["terms"]), case["x"]["k"], case["x"].get("as"), case["a"]["k"], case["a"].get("as")))
+        ctx.count("oracle.names")
+        ctx.count("oracle.names." + recipe)
+        if plain_joining_collides(sterms, feats): ctx.count("oracle.names.plain-joining-would-collide")
+        if any(f.startswith("punctuation") for f in name_flags(case)): ctx.count("oracle.names.punctuation-in-text")
+    if r is None: return []
+    small = shrink(case, ev=evaluate_names)
+    r2 = evaluate_names(small) or r
+    # one signature per mechanism: names are spelled without separators, so (a) a string value runs into the text that follows it,
+    # (b) a key that contains a namespace letter reads as several features
+    fl = name_flags(small)
+    mech = ("string-value-runs-into-the-next-name" if any(f.startswith("string-value-after") for f in fl) else
+            "name-holding-a-namespace-letter-reads-as-several-features" if any(f.startswith("ns-letter") for f in fl) else "+".join(fl) or "plain")
+    return [(f"encode-names/mode={r2[0]}/{mech}",
+             f"{r2[1]} | minimal: terms={small['terms']} x={brief(small['x'])} a={brief(small['a'])} | original: terms={case['terms']} x={brief(case['x'])} a={brief(case['a'])}")]
+
 # ------------------------------------------------------------------------------------------ one case
 def _structure(case):
     def shape(inp):
@@ -722,6 +989,7 @@ def _structure(case):
 def check_case(spec, ctx=None):
     """one term list, one encoder, several inputs; returns [(sig, what)]"""
     from coba.encodings import InteractionsEncoder
+    if spec.get("names"): return check_names(spec, ctx)
     note = ctx.count if ctx else None
     viol = []
     terms = spec["terms"]
@@ -795,6 +1063,9 @@ def run_shard(ctx):
             ctx.count("wide.skipped-after-many-violations"); return
         visit(gen_wide_case(ctx.rng, ctx.plan.get("wide_cap", 60000)))
         ctx.count("wide.cases")
+    for _ in range(ctx.plan.get("names", 0)):                   # every shard: names that are hard to keep apart (small and quick: first)
+        visit(gen_hostile(ctx.rng))
+        ctx.count("names.cases")
     every = max(1, ctx.n // max(1, nwide))                      # spread over the enumeration: a time cut takes from both alike
     for rep in range(ctx.plan.get("one_term_histories", 2)):     # every shard: a history on every one-term encoder
         for index in range(OFFS[1]):
